@@ -100,10 +100,13 @@ func init() {
 		errs := 0
 		sent := map[int]bool{}
 		send := func(id int) {
+			// rng is shared by the sender goroutines: rand.Rand is not safe for concurrent use
+			mu.Lock()
 			n := 1 + rng.Intn(200)
 			if rng.Intn(10) == 0 {
 				n = 1 + rng.Intn(20000)
 			}
+			mu.Unlock()
 			msg := fmt.Sprintf("{%d:%d:%s}", id, n, strings.Repeat("x", n))
 			e := tr.Send(nil, []byte(msg))
 			mu.Lock()
